@@ -116,9 +116,17 @@ Definition result_matches (r : list inst * term) (c : hcase) : bool :=
 
 (* the machine model reproduces what the implementation did; inside the guards of the theorems
    the recursive specification does too *)
+(* with a target filter the documented behaviour is: the deliveries of the matcher minus the
+   rejected ones; the terminal result is untouched *)
+Definition filter_res (keep : inst -> bool) (r : list inst * term) : list inst * term :=
+  (filter keep (fst r), snd r).
+
 Definition check_hcase (c : hcase) : bool :=
-  result_matches (run_kind (hc_kind c) (hc_decls c) (hc_units c)) c
-  && (if hc_guard c then result_matches (spec_kind (hc_kind c) (hc_decls c) (hc_units c)) c else true).
+  let keep := keep_unflagged (hc_rej c) in
+  result_matches (run_kind_f keep (hc_kind c) (hc_decls c) (hc_units c)) c
+  && (if hc_guard c
+      then result_matches (filter_res keep (spec_kind (hc_kind c) (hc_decls c) (hc_units c))) c
+      else true).
 
 (* HC: a run.  VC: accept/reject of a generated schema by the real ValidateSchema against the
    transcription of what validation enforces. *)
